@@ -97,3 +97,9 @@ Definition batches (n nb pre : nat) : list nat := skip_batches pre (full_batches
    For an eigen-direction of the operator (eigenvalue lam) orthogonal to the projected-out ones, the solver
    sees lam + op_shift and the code reports that minus sub_shift. *)
 Definition reported_eigenvalue (op_shift sub_shift lam : Q) : Q := lam + op_shift - sub_shift.
+
+(* estimate_evidence_lower_bound, trace_log_method="slq":
+     if slq_order > op_size: slq_order = op_size
+   (op_size = dimension of the space the trace-log is taken in: metric_size in signal space, number of data
+   points in data space -- not the number of relevant degrees of freedom) *)
+Definition clamp_order (requested op_size : nat) : nat := if Nat.ltb op_size requested then op_size else requested.
